@@ -1501,6 +1501,8 @@ DEFAULT_MODELS = {
     "core::num::wrapping_mul": m_wrapping("Mul"),
     "core::num::wrapping_add": m_wrapping("Add"),
     "core::num::wrapping_sub": m_wrapping("Sub"),
+    "core::num::wrapping_shl": m_wrapping("Shl"),
+    "core::num::wrapping_shr": m_wrapping("Shr"),
     "core::num::saturating_sub": m_saturating("sub"),
     "core::num::saturating_add": m_saturating("add"),
     "core::num::abs_diff": lambda eng, st, args, info: [(st, ("abs_diff",) + tuple(sorted(args, key=repr)))],
